@@ -181,6 +181,7 @@ class World:
         self.keep_wire = keep_wire
         self.frame_seen = {}    # identity key prefix -> count
         self.delivering = None  # wire sequence number of the frame being delivered right now
+        self.sched_viol = None  # first violation of "the scheduler's head is the earliest pending entry" (see run())
         self.networks = []
         self.budget_hit = None
         self.t0 = clock.now
@@ -239,6 +240,13 @@ class World:
                     res = 'quiescent'
                     break
                 when = tm.tasks[0][0]
+                if len(tm.tasks) > 2 and self.sched_viol is None:
+                    # invariant of the scheduler, evaluated whenever virtual time is about to advance: the entry it will
+                    # run next is the earliest one pending (otherwise some timer fires late by an unbounded amount)
+                    m = min(tm.tasks)
+                    if m[0] < when:
+                        self.sched_viol = {'t': clock.now - self.t0, 'head_due_in': when - clock.now, 'earliest_due_in': m[0] - clock.now,
+                                           'entries': len(tm.tasks), 'buried': type(m[2]).__name__}
                 if limit is not None and when > limit:
                     res = 'horizon'
                     break
